@@ -1,4 +1,5 @@
 import Poulpy.Lemmas.Lut
+import Mathlib.Tactic.LinearCombination
 
 namespace Lut
 
@@ -626,6 +627,160 @@ theorem lutSet_extN_facts (n ext b kLut k step : Nat) (f : List Int) (hpow : isP
   refine ⟨_, hset, rfl, lutRotate_accOK n ext size b hb2 D1 hD1ok (by omega) _, ?_⟩
   rw [lutRotate_interleave n _ D1 (by omega) hn hf.1 hf.2 (by rw [hD1len]; exact hn2) (by rw [hD1len]; omega)
     (by rw [hD1len]; omega), hI1]
+
+
+theorem map_zero_eq {n size : Nat} (x : List Vec) (hx : Shaped n size x) : x.map (·.map fun _ => (0:Int)) = zeroP n size := by
+  obtain ⟨hx1, hx2⟩ := hx
+  unfold zeroP
+  subst hx1
+  induction x with
+  | nil => rfl
+  | cons a t ih =>
+    simp only [List.map_cons, List.length_cons, List.replicate_succ, List.cons.injEq]
+    refine ⟨?_, ih (fun v hv => hx2 v (List.mem_cons_of_mem _ hv))⟩
+    rw [← hx2 a List.mem_cons_self]
+    clear hx2 ih
+    induction a with
+    | nil => rfl
+    | cons c u ihu => simp [List.replicate_succ, ihu]
+
+/-- one block of `execute_standard` / `execute_block_binary` -/
+def plainBlock (b : Nat) (acc : List Vec) (blk : List (Int × Int)) : List Vec :=
+  let add := blk.foldl (fun add (as : Int × Int) => addP add (scaleP as.2 (subP (rotate as.1 acc) acc))) (acc.map (·.map fun _ => 0))
+  (addP acc add).map (normVec b)
+
+theorem blindPlain_eq (b block : Nat) (lut0 : List Vec) (b0 : Int) (a sk : List Int) :
+    blindPlain b block lut0 (b0 :: a) sk =
+      (chunksExact block (List.zip a sk).length (List.zip a sk)).foldl (plainBlock b) (rotate b0 lut0) := rfl
+
+theorem plain_fold_zero {n size : Nat} (acc : List Vec) (hacc : Shaped n size acc) :
+    ∀ (blk : List (Int × Int)) (add : List Vec), Shaped n size add → (∀ p ∈ blk, p.2 = 0) →
+      blk.foldl (fun add (as : Int × Int) => addP add (scaleP as.2 (subP (rotate as.1 acc) acc))) add = add := by
+  intro blk
+  induction blk with
+  | nil => intro add _ _; rfl
+  | cons p rest ih =>
+    intro add hadd hz
+    simp only [List.foldl_cons]
+    rw [hz p List.mem_cons_self, scaleP_zero _ (subP_shaped _ _ (rotate_shaped _ _ hacc) hacc), addP_zero _ hadd]
+    exact ih add hadd (fun q hq => hz q (List.mem_cons_of_mem _ hq))
+
+theorem plainBlock_none {n size : Nat} (b : Nat) (hb : 1 ≤ b) (hb2 : b ≤ 63) (acc : List Vec) (hacc : Shaped n size acc)
+    (hsym : SymP b acc) (blk : List (Int × Int)) (hz : ∀ p ∈ blk, p.2 = 0) : plainBlock b acc blk = acc := by
+  unfold plainBlock
+  simp only
+  rw [map_zero_eq acc hacc, plain_fold_zero acc hacc blk _ (zeroP_shaped n size) hz, addP_zero _ hacc,
+    map_normVec_id b hb hb2 acc hsym]
+
+theorem plainBlock_sel {n size : Nat} (b : Nat) (hb : 1 ≤ b) (hb2 : b ≤ 63) (acc : List Vec) (hacc : Shaped n size acc)
+    (hsym : SymP b acc) (pre post : List (Int × Int)) (a : Int) (hpre : ∀ p ∈ pre, p.2 = 0) (hpost : ∀ p ∈ post, p.2 = 0) :
+    plainBlock b acc (pre ++ (a, 1) :: post) = rotate a acc := by
+  unfold plainBlock
+  simp only
+  have hR := rotate_shaped (n := n) (size := size) a acc hacc
+  rw [map_zero_eq acc hacc, List.foldl_append, plain_fold_zero acc hacc pre _ (zeroP_shaped n size) hpre]
+  simp only [List.foldl_cons]
+  rw [scaleP_one, zero_addP _ (subP_shaped _ _ hR hacc), plain_fold_zero acc hacc post _ (subP_shaped _ _ hR hacc) hpost,
+    addP_subP _ _ hacc hR, map_normVec_id b hb hb2 _ (rotate_sym b hb2 a acc hsym)]
+
+theorem plain_fold_blocks {n size : Nat} (b : Nat) (hb : 1 ≤ b) (hb2 : b ≤ 63) (L : List Vec) (hL : InRange L) :
+    ∀ (chunks : List (List (Int × Int))) (acc : List Vec) (K : Int),
+      Shaped n size acc → SymP b acc → acc = rotate K L → (∀ blk ∈ chunks, BinBlock blk) →
+      chunks.foldl (plainBlock b) acc = rotate (K + (chunks.map blkPhase).sum) L := by
+  intro chunks
+  induction chunks with
+  | nil => intro acc K _ _ h _; simpa using h
+  | cons blk rest ih =>
+    intro acc K hsh hsy hK hblk
+    have hrest := fun q hq => hblk q (List.mem_cons_of_mem _ hq)
+    simp only [List.foldl_cons, List.map_cons, List.sum_cons]
+    rcases hblk blk List.mem_cons_self with hz | ⟨pre, a, post, rfl, hpre, hpost⟩
+    · rw [plainBlock_none b hb hb2 acc hsh hsy blk hz, blkPhase_zero blk hz]
+      have := ih acc K hsh hsy hK hrest
+      simpa using this
+    · rw [plainBlock_sel b hb hb2 acc hsh hsy pre post a hpre hpost, blkPhase_sel pre post a hpre hpost]
+      have h' : rotate a acc = rotate (a + K) L := by rw [hK, rotate_rotate _ _ _ hL]
+      have := ih (rotate a acc) (a + K) (rotate_shaped a acc hsh) (rotate_sym b hb2 a acc hsy) h' hrest
+      rw [this]; congr 1; ring
+
+
+/-- the mod-switch of one (sign-applied) top-limb digit: `⌊(x + 2^{d-1}) / 2^d⌋` -/
+def msRound (d : Nat) (x : Int) : Int := (x + 2 ^ (d - 1)) / 2 ^ d
+/-- its rounding remainder `(x + 2^{d-1}) mod 2^d ∈ [0, 2^d)` -/
+def msRem (d : Nat) (x : Int) : Int := (x + 2 ^ (d - 1)) % 2 ^ d
+
+theorem msRound_mul (d : Nat) (x : Int) : msRound d x * 2 ^ d = x + (2 ^ (d - 1) - msRem d x) := by
+  unfold msRound msRem
+  have := Int.emod_add_mul_ediv (x + 2 ^ (d - 1)) (2 ^ d)
+  have hc : (x + 2 ^ (d - 1)) / 2 ^ d * 2 ^ d = 2 ^ d * ((x + 2 ^ (d - 1)) / 2 ^ d) := by ring
+  omega
+
+theorem msErr_bound (d : Nat) (hd : 1 ≤ d) (x : Int) :
+    -(2:Int) ^ (d - 1) < 2 ^ (d - 1) - msRem d x ∧ 2 ^ (d - 1) - msRem d x ≤ 2 ^ (d - 1) := by
+  unfold msRem
+  have hp : (0:Int) < 2 ^ d := by positivity
+  have e : (2:Int) ^ d = 2 * 2 ^ (d - 1) := by
+    have : d = (d - 1) + 1 := by omega
+    conv => lhs; rw [this, pow_succ]
+    ring
+  have h0 := Int.emod_nonneg (x + 2 ^ (d - 1)) (ne_of_gt hp)
+  have h1 := Int.emod_lt_of_pos (x + 2 ^ (d - 1)) hp
+  constructor <;> omega
+
+/-- exact error of the index: per-coefficient rounding errors of the selected coefficients -/
+theorem phase_error_sum (d : Nat) : ∀ (xs sk : List Int),
+    blkPhase (List.zip (xs.map (msRound d)) sk) * 2 ^ d =
+      blkPhase (List.zip xs sk) + blkPhase (List.zip (xs.map fun x => 2 ^ (d - 1) - msRem d x) sk) := by
+  intro xs
+  induction xs with
+  | nil => intro sk; simp [blkPhase]
+  | cons x t ih =>
+    intro sk
+    cases sk with
+    | nil => simp [blkPhase]
+    | cons s u =>
+      have := ih u
+      unfold blkPhase at this ⊢
+      simp only [List.map_cons, List.zip_cons_cons, List.sum_cons]
+      have hm := msRound_mul d x
+      linear_combination s * hm + this
+
+theorem phase_error_bound (d : Nat) (hd : 1 ≤ d) : ∀ (xs sk : List Int), (∀ s ∈ sk, s = 0 ∨ s = 1) →
+    (blkPhase (List.zip (xs.map fun x => 2 ^ (d - 1) - msRem d x) sk)).natAbs ≤ (sk.sum).natAbs * 2 ^ (d - 1) ∧ 0 ≤ sk.sum := by
+  intro xs
+  induction xs with
+  | nil => intro sk hs
+           refine ⟨by simp [blkPhase], ?_⟩
+           induction sk with
+           | nil => simp
+           | cons s u ihu =>
+             simp only [List.sum_cons]
+             have := ihu (fun q hq => hs q (List.mem_cons_of_mem _ hq))
+             rcases hs s List.mem_cons_self with h | h <;> omega
+  | cons x t ih =>
+    intro sk hs
+    cases sk with
+    | nil => simp [blkPhase]
+    | cons s u =>
+      have hu := ih u (fun q hq => hs q (List.mem_cons_of_mem _ hq))
+      have hb := msErr_bound d hd x
+      unfold blkPhase at hu ⊢
+      simp only [List.map_cons, List.zip_cons_cons, List.sum_cons]
+      have hp : (0:Int) < 2 ^ (d - 1) := by positivity
+      generalize (List.map (fun p : Int × Int => p.1 * p.2) (List.zip (List.map (fun x => 2 ^ (d - 1) - msRem d x) t) u)).sum = E at *
+      generalize u.sum = S at *
+      generalize (2:Int) ^ (d - 1) - msRem d x = e at *
+      have hpn : ((2:Nat) ^ (d - 1) : Int) = (2:Int) ^ (d - 1) := by push_cast; rfl
+      rcases hs s List.mem_cons_self with h | h
+      · subst h; simp only [Int.mul_zero, Int.zero_add]; exact hu
+      · subst h
+        refine ⟨?_, by omega⟩
+        have h1 : (e * 1 + E).natAbs ≤ e.natAbs + E.natAbs := by rw [Int.mul_one]; exact Int.natAbs_add_le e E
+        have h2 : e.natAbs ≤ 2 ^ (d - 1) := by
+          zify; rw [abs_le]; constructor <;> omega
+        have h3 : (1 + S).natAbs = 1 + S.natAbs := by omega
+        rw [h3, Nat.add_mul, Nat.one_mul]
+        omega
 
 
 end Lut
